@@ -519,7 +519,12 @@ class Socket:
 
             raise ZMQError(msg=f'sim: blocking recv on empty inbox of {self!r} (the code only receives after poll)')
 
-        return [p.materialise() if isinstance(p, Ref) else p for p in self.inbox.popleft().parts]
+        m = self.inbox.popleft()
+
+        if m.info[0] == 'req' and self.net.log_wire:      # the moment the publisher READS a request (a delivered request may sit in the queue)
+            self.net.wire.append((self.world.now, 'rcv', f'{m.info[1]}>>{self.bound_at[0] if self.bound_at else "?"}', m.info, m.seq))
+
+        return [p.materialise() if isinstance(p, Ref) else p for p in m.parts]
 
 
 class Poller:
